@@ -135,6 +135,9 @@ func cmdRun(args []string) int {
 		fmt.Fprintln(os.Stderr, "load:", err)
 		return 2
 	}
+	for f, e := range droppedHarness {
+		fmt.Fprintf(os.Stderr, "symgo: harness file %s left out (does not compile against this tree): %s\n", f, firstLine(e))
+	}
 	loadS := time.Since(t0).Seconds()
 	nw := *workers
 	if nw <= 0 {
@@ -161,8 +164,15 @@ func cmdRun(args []string) int {
 		pkgPath := repoModule + "/" + hs.Pkg
 		fn := P.Func(pkgPath, hs.Name)
 		if fn == nil {
-			fmt.Fprintf(os.Stderr, "harness %s not found in %s\n", hs.Name, pkgPath)
-			return 2
+			msg := fmt.Sprintf("harness %s not found in %s", hs.Name, pkgPath)
+			for f, e := range droppedHarness {
+				msg += fmt.Sprintf("; harness file %s does not compile against this tree: %s", f, firstLine(e))
+			}
+			fmt.Fprintln(os.Stderr, msg)
+			fmt.Println("INCONCLUSIVE: " + msg)
+			rep.Inconclusive = append(rep.Inconclusive, msg)
+			exit = 2
+			continue
 		}
 		params := map[string]int64{}
 		src := hs.Quick
